@@ -25,7 +25,7 @@ RULE = ('histories of 50-400 Deque calls (append/appendleft/extend/extendleft/po
         'distinct_nontrivial = distinct (operation, outcome class, maxlen, empty/non-empty) cells + distinct schedules '
         'with a preemption inside an operation')
 DISTINCT = ('cells', 'schedules')
-REQUIRED = ('calls_judged', 'file_backed_values', 'reopen_events', 'pickle_events', 'copy_events', 'fanout_deques',
+REQUIRED = ('scheduled_item_accesses', 'calls_judged', 'file_backed_values', 'reopen_events', 'pickle_events', 'copy_events', 'fanout_deques',
             'django_deques', 'maxlen_trims', 'size_limit_squeezes', 'schedules_checked', 'free_runs',
             'exceptions_matched', 'extends_from_failing_iterables', 'blocks_left_by_KeyboardInterrupt',
             'blocks_left_by_GeneratorExit', 'blocks_left_by_commit')
@@ -346,12 +346,26 @@ def schedule(dc, sc, res, rng, label):
     sch = Sched(rng, clock, strategy=rng.choice(['random', 'preempt', 'random', 'ops']),
                 preempt_points={rng.randrange(0, 150) for _ in range(3)})
     rec = Recorder(sch)
+    # a quarter of the schedules also read and assign by position next to the producers and consumers.  The property does
+    # not promise that finding a position and using it is one atomic step (a position is found by walking the keys), so
+    # such schedules are not compared with a sequential deque: the calls must complete - wait for a busy database, raise
+    # nothing but IndexError - and nothing may be popped twice or out of thin air
+    by_position = rng.random() < 0.25
 
     def client(ci):
         def run():
             for i in range(rng.randrange(2, 5)):
-                op = rng.choice(['append', 'append', 'appendleft', 'pop', 'popleft', 'len'])
-                if op in ('append', 'appendleft'):
+                op = rng.choice(['append', 'append', 'appendleft', 'pop', 'popleft', 'len'] + (
+                    ['setitem', 'getitem'] if by_position else []))
+                if op in ('setitem', 'getitem'):
+                    idx = rng.choice([0, -1, 1])
+                    res.count('scheduled_item_accesses')
+                    if op == 'setitem':
+                        v = ('s%d-%d;' % (ci, i)) * (30 if rng.random() < 0.5 else 1)
+                        rec.call(ci, op, (idx, v), lambda: objs[ci].__setitem__(idx, v))
+                    else:
+                        rec.call(ci, op, (idx,), lambda: objs[ci][idx])
+                elif op in ('append', 'appendleft'):
                     v = ('c%d-%d;' % (ci, i)) * (30 if rng.random() < 0.5 else 1)
                     rec.call(ci, op, (v,), lambda: getattr(objs[ci], op)(v))
                 elif op == 'len':
@@ -391,15 +405,20 @@ def schedule(dc, sc, res, rng, label):
             t += 2
         fresh.cache.close()
         appended = [o['args'][0] for o in ops if o['op'] in ('append', 'appendleft')]
+        assigned = [o['args'][1] for o in ops if o['op'] == 'setitem']
         popped = [o['result'] for o in ops if o['op'] in ('pop', 'popleft') and o['kind'] == 'ok']
         if len(set(popped)) != len(popped):
             res.violation('an appended item was popped twice', dict(extra, popped=popped))
             return
-        if not set(popped) <= set(appended):
+        if not set(popped) <= set(appended) | set(assigned):
             res.violation('popped an item nobody appended', dict(extra, popped=popped))
             return
-        if maxlen is None and sorted(popped) != sorted(appended):
+        if maxlen is None and not assigned and sorted(popped) != sorted(appended):
             res.violation('items lost without maxlen: appended %d, popped %d' % (len(appended), len(popped)), extra)
+            return
+        if by_position:
+            res.count('schedules_with_access_by_position')
+            res.count('evaluations')
             return
         try:
             good, info = lin.check(ops, (), dq_step_factory(maxlen), timeout=10)
